@@ -1,3 +1,9 @@
 // Pasted into protocols/kad/src/query/peers/closest.rs (mod verif) under cfg(kani).
 #[allow(unused_imports)]
 use super::*;
+
+pub(crate) mod c39 {
+    #[allow(unused_imports)]
+    use super::super::*;
+    include!(concat!(env!("LIBP2P_VERIF"), "/units/C39/closest.rs"));
+}
